@@ -229,3 +229,38 @@ fn push(ops: &mut Vec<Op>, model: &mut Model, op: Op) {
     let _ = Status::Never;
     ops.push(op);
 }
+
+
+/// The enumerated graph family of C09: every edge set (self-imports included) over a fixed
+/// small file set, one fault-free history per graph: write the files, then ask for the graph
+/// of every file and analyse the first.  `files` = 3: {root.zy, a.zy, a.zyi} (512 graphs),
+/// `files` = 4: {root.zy, a.zy, b.zy, a.zyi} (65 536 graphs); `a.zyi`, when it has content,
+/// adds the signature edge a.zy -> a.zyi by itself.  Spellings are drawn from `seed`.
+pub fn enumerated(files: usize, mask: u64, seed: u64) -> Generated {
+    use crate::world::{SLOT_A, SLOT_A_SIG, SLOT_B, SLOT_ROOT};
+    let mut rng = Rng::new(seed);
+    let set: Vec<usize> =
+        if files == 3 { vec![SLOT_ROOT, SLOT_A, SLOT_A_SIG] } else { vec![SLOT_ROOT, SLOT_A, SLOT_B, SLOT_A_SIG] };
+    let config = Config { symlinks: false, faults: false, inline: true };
+    let mut ops = Vec::new();
+    for (i, from) in set.iter().enumerate() {
+        let mut targets = Vec::new();
+        for (j, to) in set.iter().enumerate() {
+            if mask >> (i * set.len() + j) & 1 == 1 {
+                let spelling = rng.pick(&[Spelling::Plain, Spelling::Dot, Spelling::DotDot, Spelling::Absolute]).clone();
+                targets.push((*to, spelling));
+            }
+        }
+        // the companion exists iff it imports something or the top bit pattern asks for it:
+        // an edge-less a.zyi is present in half of the graphs (decided by the seed)
+        if *from == SLOT_A_SIG && targets.is_empty() && rng.chance(1, 2) {
+            continue;
+        }
+        ops.push(Op::SilentWrite { slot: *from, content: content::importing_all(&targets) });
+    }
+    for root in &set {
+        ops.push(Op::Ask { root: *root, query: Query::Graph });
+    }
+    ops.push(Op::Ask { root: SLOT_ROOT, query: Query::Analyze });
+    Generated { config, ops }
+}
